@@ -487,6 +487,9 @@ pub enum Item {
     Co(CoCase),
     Drv(crate::props::c08::HCase),
     Wrapped(Wrapped),
+    /// stocked event queues: a buffer that is re-posted after a poll (handler Ok / None / Err) must
+    /// be announced to a notification-driven device
+    Events(crate::props::c19::ECase),
 }
 
 /// Interrupt suppression through the buffer-owning queue wrapper: the setting the caller made last
@@ -498,6 +501,17 @@ pub struct Wrapped {
     pub toggles: Vec<bool>,
     /// a completion is delivered and polled between toggles
     pub traffic: bool,
+}
+
+pub fn events(c: &crate::props::c19::ECase, st: &mut Stats) -> Result<(), String> {
+    let mut scratch = Stats::default();
+    match crate::props::c19::check(c, &mut scratch) {
+        Ok(()) => {}
+        Err(m) if m.contains("lost wake-up") || m.contains("was it notified?") => return Err(format!("{:?} on {:?} policy {:?}: {}", c.target, c.kind, c.policy, m)),
+        Err(_) => st.class("driver_run_stopped_by_another_oracle"),
+    }
+    st.class("event_queue_repost_runs");
+    Ok(())
 }
 
 pub fn wrapped(c: &Wrapped, st: &mut Stats) -> Result<(), String> {
@@ -609,6 +623,7 @@ pub fn replay(engine: &str, case: &serde_json::Value) -> Result<(), String> {
                 Item::Co(c) => cosim(c, &mut st),
                 Item::Drv(c) => drivers(c, &mut st),
                 Item::Wrapped(c) => wrapped(c, &mut st),
+                Item::Events(c) => events(c, &mut st),
             }
         }
     }
@@ -688,6 +703,20 @@ pub fn run(ctx: &Ctx) -> Report {
             }
         }
     }
+    // stocked event queues: every handler outcome x policy x ring feature
+    {
+        use crate::props::c19::{ECase, EOp, Target};
+        for target in [Target::Owning(1, 0), Target::Owning(2, 1), Target::Input, Target::Sound] {
+            for policy in [Serve::OnNotify, Serve::Late(1)] {
+                for ev in [0u64, 1 << 29] {
+                    for first in 0..3u8 {
+                        let ops = vec![EOp::Fire { pick: 0, len: 8 }, EOp::PollWith(first), EOp::Fire { pick: 0, len: 8 }, EOp::PollWith((first + 1) % 3), EOp::Burst { n: 2, rot: 1 }, EOp::PollWith((first + 2) % 3), EOp::Poll, EOp::Drain];
+                        items.push(Item::Events(ECase { target, kind: crate::tkind::TK::Model, offered: 1 << 32 | ev, policy, ops, rounds: 2 }));
+                    }
+                }
+            }
+        }
+    }
     // interrupt suppression through the owning wrapper: every setting before wrapping x every
     // toggle sequence of length <= 4, with and without traffic in between
     for pre in [None, Some(false), Some(true)] {
@@ -705,6 +734,7 @@ pub fn run(ctx: &Ctx) -> Report {
         Item::Co(c) => cosim(c, st),
         Item::Drv(c) => drivers(c, st),
         Item::Wrapped(c) => wrapped(c, st),
+        Item::Events(c) => events(c, st),
     });
     stats.merge(st);
     if failure.is_none() {
@@ -725,7 +755,7 @@ pub fn run(ctx: &Ctx) -> Report {
         failure,
         info: PartInfo {
             level: "exploration",
-            rule: "(1) event-index sweep: for every queue size in the tier, every batch size b<=N and every placement of avail_event relative to the window [old,new) (each position inside, the two just outside, the far side), walk the real queue through all 65536 index values (one independent should_notify scenario per window) and require vring_need_event(event,new,old) => should_notify(); plus, when the implementation is observed to be stateless, the full 65536x65536 (available index, avail_event) table. (2) queue histories: flag mode equivalence, set_dev_notify as read by the device, used_event after each consumed completion. (3) co-simulation of add_notify_wait_pop against OnNotify / Poll / Late devices through the spin hook, incl. runs of >65536 calls: returns, with the recorded length, within the policy's turn bound, having notified iff asked. (4) every driver's blocking helpers (11 drivers x 4 transports x {INDIRECT, EVENT_IDX} subsets x OnNotify / Late / Poll) on the driver's reference device, whose unused suppression field carries a decoy: no call may wait on a queue with entries the device was never told about. (5) OwningQueue::set_dev_notify for every setting made before wrapping and every toggle sequence of length <= 4: the device reads exactly the last setting. Histories (2) also check should_notify against vring_need_event over the window since the previous check, whatever was popped in between. Non-trivial = a sweep/table item that includes windows crossing 65535->0, or a co-simulation in which the device would sleep forever without the notification; distinct = item parameters / (config, call shapes, policy switches).",
+            rule: "(1) event-index sweep: for every queue size in the tier, every batch size b<=N and every placement of avail_event relative to the window [old,new) (each position inside, the two just outside, the far side), walk the real queue through all 65536 index values (one independent should_notify scenario per window) and require vring_need_event(event,new,old) => should_notify(); plus, when the implementation is observed to be stateless, the full 65536x65536 (available index, avail_event) table. (2) queue histories: flag mode equivalence, set_dev_notify as read by the device, used_event after each consumed completion. (3) co-simulation of add_notify_wait_pop against OnNotify / Poll / Late devices through the spin hook, incl. runs of >65536 calls: returns, with the recorded length, within the policy's turn bound, having notified iff asked. (4) every driver's blocking helpers (11 drivers x 4 transports x {INDIRECT, EVENT_IDX} subsets x OnNotify / Late / Poll) on the driver's reference device, whose unused suppression field carries a decoy: no call may wait on a queue with entries the device was never told about. (6) stocked event queues (OwningQueue, input, sound): after a poll whose handler returns Ok / None / Err the re-posted buffer is announced to a notification-driven device. (5) OwningQueue::set_dev_notify for every setting made before wrapping and every toggle sequence of length <= 4: the device reads exactly the last setting. Histories (2) also check should_notify against vring_need_event over the window since the previous check, whatever was popped in between. Non-trivial = a sweep/table item that includes windows crossing 65535->0, or a co-simulation in which the device would sleep forever without the notification; distinct = item parameters / (config, call shapes, policy switches).",
             assumptions: vec![
                 "the co-simulated device re-arms avail_event / used.flags after every service turn and re-checks the ring, as the specification requires of devices".into(),
                 "blocking helpers of the individual drivers are exercised against notification-driven devices in the driver checks (C14-C20); this check covers the shared helper on the raw queue".into(),
